@@ -71,15 +71,15 @@ Print Assumptions C17_render_injective.
    CorrectNumberSuffix).  `lint_text U ut et pp src` = what the rule reports on the document of `src`
    (Panic = the implementation panics, None = a value outside the modelled domain).
      U   : Rust's char predicates; `ascii_laws U` = the four ASCII facts used (monitored on every run);
-     pp  : the passes after condense_number_suffixes; `numbers_preserved pp` = they leave the Number tokens
+     pp  : the passes after condense_dotted_initialisms; `numbers_preserved pp` = they leave the Number tokens
            alone (monitored + checked by the correspondence on the final document's number tokens);
      ut, et : the tails of the URL / e-mail lexers: arbitrary, never reached on covered texts;
      n < 2^53 : the premise of the property (the f64 trip is exact there; the value is modelled as N);
      from_chars [a; b] = Some sx : any of the 16 casings (C17_from_chars_complete);
      ctx_ok U pre (render n) [a; b] post : the covered contexts, a decidable syntactic class (Number.v):
        pre has no numeric character, no '[', no '@' and does not end in a word character; post has no
-       numeric character, no '@' and does not start with a word character, a digit or an apostrophe; the
-       text has no "://" and no '.' directly followed by [A-Za-z0-9-].
+       numeric character, no '@' and does not start with a word character or a digit (an apostrophe is
+       allowed: C17_apostrophe_lint); the text has no "://" and no '.' directly followed by [A-Za-z0-9-].
    Conclusion: the output is [] iff the suffix is the ordinal one, and otherwise exactly one lint covering
    exactly the two suffix characters with the single suggestion ReplaceWith(correct suffix).
    ================================================================================================ *)
@@ -167,35 +167,48 @@ Check C17_hypotheses_satisfiable :
   ascii_laws ascii_uni /\ numbers_preserved id_passes.
 Print Assumptions C17_hypotheses_satisfiable.
 
-(* ctx_ok is ctx_ok_but_apostrophe plus the clause on the apostrophe *)
-Theorem C17_ctx_ok_split :
-  forall (U : uni) (pre num sfx post : text),
-  ctx_ok U pre num sfx post =
-  ctx_ok_but_apostrophe U pre num sfx post
-  && match post with c :: _ => negb (is_apostrophe_char c) | [] => true end.
-Proof. exact ctx_ok_split. Qed.
-Check C17_ctx_ok_split :
-  forall (U : uni) (pre num sfx post : text),
-  ctx_ok U pre num sfx post =
-  ctx_ok_but_apostrophe U pre num sfx post
-  && match post with c :: _ => negb (is_apostrophe_char c) | [] => true end.
-Print Assumptions C17_ctx_ok_split.
+(* FC17a (fixed in /repo by dcfd71f; formerly C17_apostrophe_refuted): a suffix directly followed by an apostrophe
+   — the possessive `the 2st's value`, `11st’s` — is judged like any other.  ctx_ok no longer excludes a right
+   context starting with an apostrophe, so this is the instance post = q :: post' of C17_lint_iff, pinned here
+   because it used to be the counterexample. *)
+Theorem C17_apostrophe_lint :
+  forall (U : uni) (ut : text -> nat) (et : text -> nat -> option nat) (pp : text -> list token -> list token),
+  ascii_laws U -> numbers_preserved pp ->
+  forall (n : N) (a b : N) (sx : suffix) (pre : text) (q : N) (post : text),
+  (n < two53)%N -> from_chars [a; b] = Some sx -> is_apostrophe_char q = true ->
+  ctx_ok U pre (render n) [a; b] (q :: post) = true ->
+  exists ls, lint_text U ut et pp (pre ++ render n ++ [a; b] ++ q :: post) = Ok (Some ls)
+    /\ (ls = [] <-> sx = ordinal n)
+    /\ (sx <> ordinal n ->
+        ls = [mkmlint (mkspan (length pre + length (render n)) (length pre + length (render n) + 2))
+                      [ReplaceWith (to_chars (ordinal n))]]).
+Proof. exact apostrophe_lint_thm. Qed.
+Check C17_apostrophe_lint :
+  forall (U : uni) (ut : text -> nat) (et : text -> nat -> option nat) (pp : text -> list token -> list token),
+  ascii_laws U -> numbers_preserved pp ->
+  forall (n : N) (a b : N) (sx : suffix) (pre : text) (q : N) (post : text),
+  (n < two53)%N -> from_chars [a; b] = Some sx -> is_apostrophe_char q = true ->
+  ctx_ok U pre (render n) [a; b] (q :: post) = true ->
+  exists ls, lint_text U ut et pp (pre ++ render n ++ [a; b] ++ q :: post) = Ok (Some ls)
+    /\ (ls = [] <-> sx = ordinal n)
+    /\ (sx <> ordinal n ->
+        ls = [mkmlint (mkspan (length pre + length (render n)) (length pre + length (render n) + 2))
+                      [ReplaceWith (to_chars (ordinal n))]]).
+Print Assumptions C17_apostrophe_lint.
 
-(* known finding FC17a: without the apostrophe clause the property FAILS on the faithful model: `the 2st's value` draws no lint (witness by vm_compute, replayed on the implementation by corpus/C17) *)
-Theorem C17_apostrophe_refuted :
-  exists (pre post : text) (n a b : N) (sx : suffix),
-    (n < two53)%N /\ from_chars [a; b] = Some sx /\ sx <> ordinal n
-    /\ ctx_ok_but_apostrophe ascii_uni pre (render n) [a; b] post = true
-    /\ lint_ascii (pre ++ render n ++ [a; b] ++ post) = Ok (Some []).
-Proof. exact apostrophe_refuted. Qed.
-Check C17_apostrophe_refuted :
-  exists (pre post : text) (n a b : N) (sx : suffix),
-    (n < two53)%N /\ from_chars [a; b] = Some sx /\ sx <> ordinal n
-    /\ ctx_ok_but_apostrophe ascii_uni pre (render n) [a; b] post = true
-    /\ lint_ascii (pre ++ render n ++ [a; b] ++ post) = Ok (Some []).
-Print Assumptions C17_apostrophe_refuted.
+(* non-vacuity: ' and ’ are apostrophes, the former witness is a covered context and draws exactly the lint *)
+Example C17_ex_apostrophe :
+  is_apostrophe_char 39%N = true /\ is_apostrophe_char 8217%N = true
+  /\ ctx_ok ascii_uni (txt "the ") (render 2) (txt "st") (txt "'s value") = true
+  /\ lint_ascii (txt "the 2st's value") = Ok (Some [mkmlint (mkspan 5 7) [ReplaceWith (txt "nd")]])
+  /\ lint_ascii (txt "the 2nd's value") = Ok (Some [])
+  /\ lint_ascii (txt "11ST'") = Ok (Some [mkmlint (mkspan 2 4) [ReplaceWith (txt "th")]]).
+Proof. exact apostrophe_example. Qed.
+(* HISTORY (regression witness over the OLD pass order, doc_tokens_old: condense_number_suffixes last): no lint *)
+Example C17_apostrophe_old_refuted : lint_ascii_old (txt "the 2st's value") = Ok (Some []).
+Proof. exact apostrophe_old_refuted. Qed.
 
-(* the other clauses of ctx_ok cannot be dropped either: `[2st]` (Regexish), `x.2st`, `2st.Then` (Hostname), `a2st`, `2sts` (words), `2st5`, a second number in the context, `1.2st` (the float 1.2) *)
+(* the clauses of ctx_ok cannot be dropped: `[2st]` (Regexish), `x.2st`, `2st.Then` (Hostname), `a2st`, `2sts` (words), `2st5`, a second number in the context, `1.2st` (the float 1.2) *)
 Theorem C17_ctx_needed :
   lint_ascii (txt "[2st]") = Ok (Some [])
   /\ lint_ascii (txt "x.2st") = Ok (Some [])
